@@ -51,6 +51,27 @@ def generated_corpus3():
     return out
 
 
+def generated_corpus4():
+    return [(oracles.sha(src), src, fam) for (src, fam) in progen.corpus4()]
+
+
+_TWINS = None
+
+
+def twin_corpus():
+    """module-level twins of every eligible program of the generated corpora (first 240 of the first one)"""
+    global _TWINS
+    if _TWINS is None:
+        out, seen = [], set()
+        for (_sha, src, fam) in generated_corpus()[:240] + generated_corpus2() + generated_corpus3() + generated_corpus4():
+            t = progen.module_twin(src)
+            if t and t not in seen:
+                seen.add(t)
+                out.append((oracles.sha(t), t, "twin:" + fam))
+        _TWINS = out
+    return _TWINS
+
+
 def example_corpus():
     return [(oracles.sha(s), s, "repo-example") for s in oracles.repo_examples() if oracles.runnable(s)]
 
@@ -66,6 +87,11 @@ def pick(items, ctx, quick_n):
         return items
     r = ctx.rng("slice")
     return r.sample(items, quick_n)
+
+
+def targeted():
+    """the family-targeted corpora (12 + 2 + 6 families, and the module-level twins): run in full in both tiers, so that no family depends on the slice"""
+    return generated_corpus2() + generated_corpus3() + generated_corpus4() + twin_corpus()
 
 
 OPTION_COMBOS = [
@@ -87,11 +113,12 @@ def key(sha, opts, extra=""):
 def behaviour_cases(ctx, quick_n):
     gen = generated_corpus()
     ex = example_corpus()
-    items = pick(gen, ctx, quick_n) + pick(generated_corpus2(), ctx, quick_n // 2) + pick(generated_corpus3(), ctx, 8) + pick(ex, ctx, quick_n // 3)
+    items = pick(gen, ctx, quick_n) + targeted() + pick(ex, ctx, quick_n // 3)
     cases = []
     r = ctx.rng("opts")
+    tsha = {t[0] for t in targeted()}
     for (sha, src, fam) in items:
-        combos = OPTION_COMBOS if ctx.thorough else [OPTION_COMBOS[0], r.choice(OPTION_COMBOS[1:])]
+        combos = OPTION_COMBOS if (ctx.thorough or sha in tsha) else [OPTION_COMBOS[0], r.choice(OPTION_COMBOS[1:])]
         for o in combos:
             cases.append((sha, src, fam, o))
     return cases
@@ -172,7 +199,7 @@ def rules_suite(ctx, quick_n=120):
     s = Suite("C02-rule-sweep", kind="oracle")
     base = baseline("C02")
     rules = rule_names()
-    items = pick(generated_corpus(), ctx, quick_n) + pick(generated_corpus2(), ctx, quick_n // 2) + pick(generated_corpus3(), ctx, 8) + pick(example_corpus(), ctx, quick_n // 2)
+    items = pick(generated_corpus(), ctx, quick_n) + targeted() + pick(example_corpus(), ctx, quick_n // 2)
     results = oracles.pmap(task_rules, [(src, rules, fam == "repo-example") for (_sha, src, fam) in items])
     fired = {}
     for (sha, src, fam), res in zip(items, results):
@@ -251,14 +278,15 @@ def whitespace_inputs():
 
 
 def total_cases(ctx, quick_n=150):
-    gen = pick(generated_corpus(), ctx, quick_n) + pick(generated_corpus2(), ctx, quick_n // 3) + [(oracles.sha(x), x, "whitespace") for x in whitespace_inputs()]
+    gen = pick(generated_corpus(), ctx, quick_n) + targeted() + [(oracles.sha(x), x, "whitespace") for x in whitespace_inputs()]
     ex_all = [(oracles.sha(s), s, "repo-example") for s in oracles.repo_examples()]
     ex = pick(ex_all, ctx, quick_n)
     adv = [(oracles.sha(s), s, "adversarial") for s in ADVERSARIAL]
     cases = []
     r = ctx.rng("total-opts")
+    tsha = {t[0] for t in targeted()}
     for (sha, src, fam) in gen + ex + adv:
-        combos = [{}, {"safe": True}, {"keep_imports": True}, {"preserve": ["f"]}] if (ctx.thorough or fam == "adversarial") else [r.choice([{}, {"safe": True}, {"keep_imports": True}])]
+        combos = [{}, {"safe": True}, {"keep_imports": True}, {"preserve": ["f"]}] if (ctx.thorough or fam == "adversarial" or sha in tsha) else [r.choice([{}, {"safe": True}, {"keep_imports": True}])]
         for o in combos:
             cases.append((sha, src, fam, o))
     return cases
@@ -313,11 +341,12 @@ def total_suite(ctx, prop, quick_n=150):
 def converge_suite(ctx, quick_n=100):
     s = Suite("C09-iteration-sweep", kind="oracle")
     base = baseline("C09")
-    items = pick(generated_corpus(), ctx, quick_n) + pick(generated_corpus2(), ctx, quick_n) + pick([(oracles.sha(x), x, "repo-example") for x in oracles.repo_examples()], ctx, quick_n)
+    items = pick(generated_corpus(), ctx, quick_n) + targeted() + pick([(oracles.sha(x), x, "repo-example") for x in oracles.repo_examples()], ctx, quick_n)
     r = ctx.rng("c09-opts")
     cases = []
+    tsha = {t[0] for t in targeted()}
     for (sha, src, fam) in items:
-        for o in ([{}, {"safe": True}, {"keep_imports": True}] if ctx.thorough else [r.choice([{}, {"safe": True}])]):
+        for o in ([{}, {"safe": True}, {"keep_imports": True}] if ctx.thorough else [{}, {"safe": True}] if sha in tsha else [r.choice([{}, {"safe": True}])]):
             if key(sha, o) not in base:
                 cases.append((sha, src, fam, o))
     results = oracles.pmap(oracles.task_iterate, [(src, dict(o), 7) for (_sha, src, _fam, o) in cases])
